@@ -40,7 +40,7 @@ func init() {
 	reg(&Property{
 		ID:          "C01",
 		Explanation: "Decides on every path of the memory driver: S1 the seven indexes are written, deleted and read under the same keys (bucket key signature and element key = full triple UUID agree between AddTriples, RemoveTriples and each of the twelve readers; each index is freshly allocated per graph and no package-level map exists); S2 create/get/drop of a graph name test presence first and fail without effect otherwise; S3 every access to the namespace map and the indexes holds the owner's lock in the required mode. The identity clause is C06's rule H2. Also (DESIGN §0.1): S1x bucket drops guarded by that bucket's emptiness and NewGraph registering a value allocated in the call; S2y presence test and map update inside one write-locked section; H1x/H3x the identity hashes read whole varints from buffers still owned; M4/M5 the memoizing wrapper's keys use full UUIDs. Not decided: set semantics over histories as such.",
-		Rules:       []func(*Ctx){ruleH1x, ruleH3x, ruleM4M5, ruleS1, ruleS1x, ruleS2, ruleS2y, ruleS3, ruleS7},
+		Rules:       []func(*Ctx){ruleS7b, ruleM3b, ruleH1x, ruleH3x, ruleM4M5, ruleS1, ruleS1x, ruleS2, ruleS2y, ruleS3, ruleS7},
 		Level:       "index key agreement between writer, deleter and readers (S1), guarded namespace operations (S2), lockset (S3), batch atomicity (S7)",
 		Trusted:     []string{"Go map semantics", "guard table of S3", trustedCore},
 		NotDecided:  []string{"set semantics over arbitrary histories as such (follows from map semantics once S1 holds, but no rule states it)", "idempotence of re-add / absent-remove", "independence of graphs beyond per-graph allocation of every index", "injectivity of the identity hashes (H2 only refutes)"},
@@ -48,7 +48,7 @@ func init() {
 	reg(&Property{
 		ID:          "C02",
 		Explanation: "Decides: S1 each lookup reads the one index whose bucket key is built from exactly its fixed components with the writer's UUID/PartialUUID choice, and deleters cover every bucket; S8 every channel lookup runs bounds -> filter -> sort -> page with a checker built from its own predicate; S9 the bucket post-filter (abstractly interpreted over query/stored kind) admits a stored predicate only if it has the query's kind and, for temporal ones, after the instants were compared; S10 the window comparisons are mirror images. Also: S9z newChecker takes the anchor of every temporal lookup predicate; S8x global-bounds/latest/paging details; S1x; H1x/H3x; M4/M5 wrapper keys. Not decided: equality with a scan for all histories.",
-		Rules:       []func(*Ctx){ruleH1x, ruleH3x, ruleM4M5, ruleS9z, ruleS1, ruleS1x, ruleS8, ruleS8x, ruleS9, func(c *Ctx) { ruleS10(c, 1, "storage/memory") }},
+		Rules:       []func(*Ctx){rulePT1, ruleM3b, ruleH1x, ruleH3x, ruleM4M5, ruleS9z, ruleS1, ruleS1x, ruleS8, ruleS8x, ruleS9, func(c *Ctx) { ruleS10(c, 1, "storage/memory") }},
 		Level:       "reader/writer key agreement (S1), pipeline shape of all 11 lookups (S8), abstract interpretation of the kind/instant post-filter (S9), bound duality (S10)",
 		Trusted:     []string{"predicate.TimeAnchor fails exactly for immutable predicates; newChecker records the anchor of a temporal query predicate (checked structurally)", trustedCore},
 		NotDecided:  []string{"result equals a scan of the stored set for every history and argument (value-level)", "hash collisions between different identifiers sharing a bucket"},
@@ -56,7 +56,7 @@ func init() {
 	reg(&Property{
 		ID:          "C03",
 		Explanation: "Decides necessary conditions only: P1 in tripleToRow every row store is followed on every path by the binding-consistency check whose false edge abandons the triple, and each extraction is built from the matching part of the triple; P2 the three tables naming a clause's bindings agree with the struct; P3 on each of the eight nil-patterns simpleFetch calls the driver method whose parameters are exactly the fixed components; S10 clause-level and row-supplied bounds are treated as mirror images; L3 row values looked up with comma-ok are not dereferenced when absent; S9 kind/instant matching at the driver. Also: P3b the unfeasible flag joins constants only; PO1 predicate/object extraction twins; TB1 the table's two column descriptions move together; S6b planner never writes the shared options; L3b cell pointer fields tested before use; S1/S1x index agreement. Not decided: soundness/completeness of the join.",
-		Rules: []func(*Ctx){ruleS1, ruleS1x, ruleP1, ruleP2, ruleP3, ruleP3b, ruleS6b, rulePO1, ruleTB1, func(c *Ctx) { ruleL3b(c, "bql/planner") }, func(c *Ctx) { ruleS10(c, 3, "bql/planner", "bql/semantic", "storage/memory") },
+		Rules: []func(*Ctx){ruleTB3, ruleHK1, ruleTB2, ruleS1, ruleS1x, ruleP1, ruleP2, ruleP3, ruleP3b, ruleS6b, rulePO1, ruleTB1, func(c *Ctx) { ruleL3b(c, "bql/planner") }, func(c *Ctx) { ruleS10(c, 3, "bql/planner", "bql/semantic", "storage/memory") },
 			func(c *Ctx) { ruleL3(c, "bql/...") }, ruleS9},
 		Level:      "row-binding typestate (P1), table agreement (P2), dispatch by nil-pattern with edge facts (P3), bound duality (S10), comma-ok contradiction rule (L3)",
 		Trusted:    []string{"pair table of S10 (lower/upper field names)", trustedCore},
@@ -65,7 +65,7 @@ func init() {
 	reg(&Property{
 		ID:          "C04",
 		Explanation: "Decides: P9 which driver mutations each statement kind can reach (lexical closures per Execute), the construct flag selecting AddTriples vs RemoveTriples, the fan-out over every target graph with the whole batch, the target list being the one the grammar puts after INTO/FROM, and Reify using one fresh blank node for its three triples; P5 the query (graph resolution) precedes the writer in CONSTRUCT/DECONSTRUCT; P8 no write error is dropped; L6 the bulk writer is joined and its channel closed on every path. Also: P9c every row of the binding table sends at least one triple; P9d the bulk writer keeps its first error; I1 Init returns each graph lookup error at once; P8b tested errors are propagated; PO1. Not decided: that the written set equals the stated set.",
-		Rules:       []func(*Ctx){ruleP9d, ruleP9, ruleP9c, rulePO1, ruleI1, ruleP5, func(c *Ctx) { ruleP8(c, "bql/planner") }, func(c *Ctx) { ruleP8b(c, "bql/planner") }, func(c *Ctx) { ruleL6(c, 12, "bql/planner") }},
+		Rules:       []func(*Ctx){ruleTB3, ruleHK2, ruleS7b, ruleP9d, ruleP9, ruleP9c, rulePO1, ruleI1, ruleP5, func(c *Ctx) { ruleP8(c, "bql/planner") }, func(c *Ctx) { ruleP8b(c, "bql/planner") }, func(c *Ctx) { ruleL6(c, 12, "bql/planner") }},
 		Level:       "statement-kind -> effect table over the call graph with lexically bound closures (P9), dominance of stages (P5), error use (P8), join typestate (L6)",
 		Trusted:     []string{"the statement-kind -> mutation table stated by the property (frozen in rule P9)", trustedCore},
 		NotDecided:  []string{"the written set equals the stated set (template instantiation per row is value-level)", "untouched graphs beyond 'only the named lists are iterated'"},
@@ -73,7 +73,7 @@ func init() {
 	reg(&Property{
 		ID:          "C05",
 		Explanation: "Decides that printer and parser of each text format use the same tables (T1): one time layout constant at every Format/Parse of anchors and bounds; %q paired with strconv.Unquote and the anchor delimiter; the literal separator; node delimiters; Triple.String's separators accepted by the compiled split patterns; WriteGraph's terminator vs the reader's split function; literal type names lexer = parser = printer (X5); the reader/writer counting discipline (IO1). Also: T2 conversion table, T2b the text between the quotes reaches the conversion unchanged. Not decided: round-trip equality for all values.",
-		Rules:       []func(*Ctx){func(c *Ctx) { ruleFS1(c, "triple/...", "io") }, func(c *Ctx) { ruleS3c(c, "triple/...", "io") }, ruleT2b, ruleT1, ruleT2, ruleIO1},
+		Rules:       []func(*Ctx){ruleN1b, ruleT3, ruleN1, func(c *Ctx) { ruleH3z(c, "triple/...", "io", "storage/...", "bql/...") }, func(c *Ctx) { ruleFS1(c, "triple/...", "io") }, func(c *Ctx) { ruleS3c(c, "triple/...", "io") }, ruleT2b, ruleT1, ruleT2, ruleIO1},
 		Level:       "sibling table agreement between printers and parsers (T1), must-pass-through on the line reader (IO1)",
 		Trusted:     []string{"fmt verbs, strconv.Unquote, regexp and bufio.ScanLines behave as documented", trustedCore},
 		NotDecided:  []string{"round-trip equality for all values (ids containing delimiters, extreme numbers, zones, text containing the literal separator) — value-level", "the unescaped \"%v\" in Literal.String"},
@@ -81,7 +81,7 @@ func init() {
 	reg(&Property{
 		ID:          "C06",
 		Explanation: "Decides: H1 every varint buffer can hold a 64-bit value; H2 the byte strings hashed by the identity methods show none of the certain non-injectivity patterns (adjacent variable segments, untagged bare-variable or equal-length alternatives, optional suffix after a variable segment, untagged delegation), Triple.UUID tiles its buffer with the full UUIDs of subject, predicate, object, no zone-dependent rendering is hashed, Triple.Equal is uuid.Equal of the two UUIDs; H3 no clock/random/pid/map-order dependency and pooled buffers are reset. H2 only refutes injectivity; it never proves it. Also: H1x varint hashed whole (array- or slice-backed), H3x pooled buffers released last.",
-		Rules:       []func(*Ctx){func(c *Ctx) { ruleS3c(c, "triple/...", "io") }, ruleH1, ruleH1x, ruleH2, ruleH3, ruleH3x},
+		Rules:       []func(*Ctx){rulePT1, func(c *Ctx) { ruleH3z(c, "triple/...", "io", "storage/...", "bql/...") }, func(c *Ctx) { ruleS3c(c, "triple/...", "io") }, ruleH1, ruleH1x, ruleH2, ruleH3, ruleH3x},
 		Level:       "symbolic framing analysis of every hashed byte string over all paths of the seven identity methods (H2), buffer capacity (H1), determinism by reachability (H3)",
 		Trusted:     []string{"SHA-1 collision freedom", "uuid.NewSHA1 hashes exactly the bytes given", trustedCore},
 		NotDecided:  []string{"injectivity as such (suffix-code reasoning is not attempted)", "SHA-1 collisions"},
@@ -89,7 +89,7 @@ func init() {
 	reg(&Property{
 		ID:          "C07",
 		Explanation: "Decides, for every path of the analysed functions and hence every schedule that can drive them: S3 every access to a lock-guarded field (frozen guard table: memoryStore.graphs, the seven memory indexes, the five memoizer caches, Table rows/bindings) holds the owner's lock in the required mode; S4 no method re-acquires its receiver's lock through a same-receiver call; S5 every Store/Graph method with a result channel closes it exactly once on every return, error returns included; S6 no lookup (or module callee it hands the pointer to) stores through its *LookupOptions; S7 AddTriples is one critical section; S2 create/get/drop test presence under the lock; L6 planner goroutines are joined. Also: S2y write-locked create/drop; H3y module-wide pooled-buffer release order. Not decided: linearizability.",
-		Rules:       []func(*Ctx){func(c *Ctx) { ruleS3c(c, "triple/...", "io", "bql/...", "storage/...") }, ruleS3b, ruleS13, ruleS3, ruleS4, ruleS5, ruleS6, ruleS7, ruleS2, ruleS2y, func(c *Ctx) { ruleH3y(c) }, func(c *Ctx) { ruleL6(c, 23, "bql/planner", "storage/...") }},
+		Rules:       []func(*Ctx){func(c *Ctx) { ruleH3z(c, "triple/...", "io", "storage/...", "bql/...") }, func(c *Ctx) { ruleS3c(c, "triple/...", "io", "bql/...", "storage/...") }, ruleS3b, ruleS13, ruleS3, ruleS4, ruleS5, ruleS6, ruleS7, ruleS2, ruleS2y, func(c *Ctx) { ruleH3y(c) }, func(c *Ctx) { ruleL6(c, 23, "bql/planner", "storage/...") }},
 		Level:       "lockset (S3), lock re-entry (S4), close-exactly-once typestate on all returns (S5), options never written (S6), batch atomicity (S7)",
 		Trusted:     []string{"guard table of rule S3 (field -> lock; a new map/slice field on a lock-owning type is reported until added)", "tableSequentialOnly exemptions (3 Table methods, reasons in source)", trustedCore},
 		NotDecided:  []string{"linearizability of histories", "deadlocks that depend on the consumer of a result channel (lookups send while holding the read lock by design)", "panics", "data races on state outside the guard table"},
@@ -97,7 +97,7 @@ func init() {
 	reg(&Property{
 		ID:          "C08",
 		Explanation: "Decides: X1/X1b every lexer loop and the state machine terminate; X2 exactly one terminal token then the channel is closed; X3 the cursor invariant; L7 evaluator recursion passes strictly shorter slices and the grammar consumes a token per recursion level; L1 every compiler-unproven index/slice on the statement path is discharged by a re-verified schema or reviewed entry; L2 no (nil, nil); L3 comma-ok values are not dereferenced when absent; L4 no process-killing call; P12 a negative LIMIT cannot reach make(); L6 every goroutine is joined or its producer drained; IO1 reader discipline. Also: X7 the scanner advances by the decoder's size; L2b, L3b, L6c, L6d (DESIGN §0.1). Not decided: absence of all panics, bounded running time.",
-		Rules: []func(*Ctx){ruleX7, ruleX1, ruleX1b, ruleX2, ruleX3,
+		Rules: []func(*Ctx){func(c *Ctx) { ruleD1(c, "triple/...", "io", "bql/...", "storage/...") }, ruleX7, ruleX1, ruleX1b, ruleX2, ruleX3,
 			func(c *Ctx) { ruleL1(c, 80, "./triple/...", "./io/...", "./bql/...", "./storage/...") },
 			func(c *Ctx) { ruleL2(c, 100, "triple/...", "io", "bql/...", "storage/...") },
 			func(c *Ctx) { ruleL2b(c, 40, "triple/...", "io", "bql/...", "storage/...") },
@@ -112,7 +112,7 @@ func init() {
 	reg(&Property{
 		ID:          "C09",
 		Explanation: "Decides: S8 the documented order bounds -> filter -> sort -> page, identical in all eleven lookups and with the page test guarding every send; S10 the window is closed on both sides by symmetry of the comparisons; S11 every filter operation has all its handlers (constants = SupportedOperations = String = executeFilter = planner table) and the two kind filters are twins; S12 no equality on zone-dependent renderings; S6 LatestAnchor is implemented without writing the caller's options. Also: S9z, S8x, S8y (checker keeps the caller's options), S12b no == between time.Time values. Not decided: paging arithmetic, ties in latest.",
-		Rules: []func(*Ctx){ruleS9z, ruleS8, ruleS8x, ruleS8y, func(c *Ctx) { ruleS12b(c, "storage/...", "bql/...", "triple/...") }, func(c *Ctx) { ruleS10(c, 1, "storage/memory") }, ruleS11,
+		Rules: []func(*Ctx){ruleS6b, func(c *Ctx) { ruleD1(c, "triple/...", "io", "bql/...", "storage/...") }, ruleS9z, ruleS8, ruleS8x, ruleS8y, func(c *Ctx) { ruleS12b(c, "storage/...", "bql/...", "triple/...") }, func(c *Ctx) { ruleS10(c, 1, "storage/memory") }, ruleS11,
 			func(c *Ctx) { ruleS12(c, "storage/memory", "storage/memoization") }, ruleS6},
 		Level:      "pipeline shape by def-use and dominance (S8), bound duality (S10), exhaustiveness tables and twin comparison (S11), direct rendering equality (S12)",
 		Trusted:    []string{"docs/support_new_filter_function.md as the oracle for the order and the recipe", trustedCore},
@@ -121,7 +121,7 @@ func init() {
 	reg(&Property{
 		ID:          "C10",
 		Explanation: "Decides (P4): (a) processClause reports 'unresolvable' (which truncates the table) only on the non-optional edge; (b) the plain cross product is only taken for non-optional clauses and LeftOptionalJoin takes it only with a non-empty right table; (c) when an optional clause matches nothing for a row the row is re-added with NULL cells; (d) every skippableError return in tripleToRow is on the non-optional edge. Also: P4e only reviewed row-preserving operations where the clause may be optional; P5c stage guards; PO1; TB1. Not decided: multiplicities of matches.",
-		Rules:       []func(*Ctx){ruleP4, ruleP4e, ruleP5c, rulePO1, ruleTB1},
+		Rules:       []func(*Ctx){ruleS6b, func(c *Ctx) { ruleD1(c, "triple/...", "io", "bql/...", "storage/...") }, ruleP4, ruleP4e, ruleP5c, rulePO1, ruleTB1},
 		Level:       "edge-fact dominance on the four places where an optional clause could drop rows (P4)",
 		Trusted:     []string{trustedCore},
 		NotDecided:  []string{"multiplicities of matches", "several optional clauses in sequence beyond each satisfying P4 individually", "joinWithRange's merge logic (value-level)"},
@@ -129,7 +129,7 @@ func init() {
 	reg(&Property{
 		ID:          "C11",
 		Explanation: "Decides: P7 validator and executor compare a GROUP BY entry with the same Projection fields; A1 every accumulator's Reset re-initialises what Accumulate writes and the group reducer resets all accumulators before each group; P8 the reduce step's error is propagated; L1 the empty pattern does not index row 0 and the other unproven indexes of the grouping path are discharged. Also: A2 group boundary and distinct keys are computed from whole cells; P7b validator/executor DNF agreement; P6. Not decided: group integrity on mixed-kind columns, accumulator arithmetic, distinct counting.",
-		Rules: []func(*Ctx){ruleA2, ruleP6, ruleP7, ruleP7b, ruleA1, func(c *Ctx) { ruleP8(c, "bql/planner") },
+		Rules: []func(*Ctx){ruleA3, ruleA4, ruleA2, ruleP6, ruleP7, ruleP7b, ruleA1, func(c *Ctx) { ruleP8(c, "bql/planner") },
 			func(c *Ctx) { ruleL1(c, 20, "./bql/table/...", "./bql/planner/...") }},
 		Level:      "sibling agreement (P7), error use (P8), bounds discharge (L1)",
 		Trusted:    []string{"L1's reviewed entries for bql/table and bql/planner", trustedCore},
@@ -138,7 +138,7 @@ func init() {
 	reg(&Property{
 		ID:          "C12",
 		Explanation: "Decides: P5 stage order pattern -> project/group -> order -> having -> limit, each once and dominating the next; P6 the limit is pushed into the driver only under empty GROUP BY, ORDER BY, HAVING and a single clause; P10 numeric/chronological order is not decided on renderings in the sort comparator; P12 the limit literal is an int64 and non-negative before it is stored and Table.Limit only ever receives it; P13 the comparator reads both rows under the first key, passes its direction and recurses on the remaining keys exactly on equality. Also: P12b ORDER BY de-duplication keeps whole original entries in order; P5c each stage works iff its clause is present. Not decided: that the sort yields a sorted permutation, DESC and multi-key handling.",
-		Rules:       []func(*Ctx){ruleP5, ruleP6, func(c *Ctx) { ruleP10(c, "bql/table") }, ruleP12, ruleP12b, ruleP13, ruleP5c},
+		Rules:       []func(*Ctx){ruleP12c, ruleT1, ruleP5, ruleP6, func(c *Ctx) { ruleP10(c, "bql/table") }, ruleP12, ruleP12b, ruleP13, ruleP5c},
 		Level:       "dominance of stages (P5), guard facts at the push-down sites (P6), taint from non-order-preserving renderings to string orderings (P10), guard facts on the limit store (P12)",
 		Trusted:     []string{"sort.Sort sorts", trustedCore},
 		NotDecided:  []string{"that the result is a sorted permutation (library)", "DESC and multi-key handling", "first n rows (value-level)", "row dropping inside the clause when the limit is pushed down (PID/extraction filters)"},
@@ -146,7 +146,7 @@ func init() {
 	reg(&Property{
 		ID:          "C13",
 		Explanation: "Decides: P5 HAVING is applied after grouping and before limit; P10 the HAVING evaluators do not order numbers or times by their renderings; E1 each comparisonFor* evaluator tests the cell's kind-specific field before comparing; L7 the evaluator builder's recursion terminates; L2 evaluator constructors never return (nil, nil). Also: E2 NOT never returns its operand; P5c; P8/P8b evaluator errors propagate. Not decided: truth-functional correctness of the boolean evaluator and of the hand-written expression builder.",
-		Rules:       []func(*Ctx){ruleE2, ruleP5, ruleP5c, func(c *Ctx) { ruleP8(c, "bql/semantic") }, func(c *Ctx) { ruleP8b(c, "bql/semantic") }, func(c *Ctx) { ruleP10(c, "bql/semantic") }, ruleE1, func(c *Ctx) { ruleL7(c, "bql/semantic") }, func(c *Ctx) { ruleL2(c, 40, "bql/semantic") }},
+		Rules:       []func(*Ctx){ruleE3, ruleE4, ruleE2, ruleP5, ruleP5c, func(c *Ctx) { ruleP8(c, "bql/semantic") }, func(c *Ctx) { ruleP8b(c, "bql/semantic") }, func(c *Ctx) { ruleP10(c, "bql/semantic") }, ruleE1, func(c *Ctx) { ruleL7(c, "bql/semantic") }, func(c *Ctx) { ruleL2(c, 40, "bql/semantic") }},
 		Level:       "stage dominance (P5), rendering taint (P10), structural recursion (L7)",
 		Trusted:     []string{trustedCore},
 		NotDecided:  []string{"truth-functional correctness of booleanNode and of the expression builder (evaluating them is symbolic execution, a different family)", "that comparisons with a constant of another kind never hold"},
@@ -154,7 +154,7 @@ func init() {
 	reg(&Property{
 		ID:          "C14",
 		Explanation: "Decides one clause only: P11 no map iteration order reaches an ordered output — every range over a map in bql/… and storage/… whose body appends, sends, writes or leaves with an element is followed by a sort of what it built or is in the reviewed table with its reason; in particular the ORDER BY key list is no longer rebuilt from a map. Also: HK1 hooks consume the modifier token they remember (no carry-over to the next clause); P3b the last FROM graph does not decide feasibility alone; S6b; P12b; S1/S1x index agreement (answers do not depend on which index a clause order selects); M4/M5. Not decided: invariance under renaming, clause permutation, partitioning, chanSize/bulkSize/GOMAXPROCS, monotonicity.",
-		Rules:       []func(*Ctx){func(c *Ctx) { ruleS3c(c, "triple/...", "io", "bql/...", "storage/...") }, ruleHK1, ruleS1, ruleS1x, ruleM4M5, func(c *Ctx) { ruleP11(c, "bql/...", "storage/...") }, ruleP3b, ruleS6b, ruleP12b},
+		Rules:       []func(*Ctx){ruleTB2, ruleH1x, func(c *Ctx) { ruleD1(c, "triple/...", "io", "bql/...", "storage/...") }, func(c *Ctx) { ruleS3c(c, "triple/...", "io", "bql/...", "storage/...") }, ruleHK1, ruleS1, ruleS1x, ruleM4M5, func(c *Ctx) { ruleP11(c, "bql/...", "storage/...") }, ruleP3b, ruleS6b, ruleP12b},
 		Level:       "enumeration of order-sensitive map ranges with a reviewed table (P11)",
 		Trusted:     []string{"p11Reviewed (8 sites, one reason each)", trustedCore},
 		NotDecided:  []string{"invariance under binding renaming, clause order, partitioning over graphs, channel/bulk sizes, GOMAXPROCS", "monotonicity under added triples — all relations between runs"},
@@ -162,7 +162,7 @@ func init() {
 	reg(&Property{
 		ID:          "C15",
 		Explanation: "Decides: L1 every compiler-unproven index/slice in node/predicate/literal/triple/io is discharged by a guard re-verified on the current code; L2 no parser or builder returns (nil, nil), ParseObject included; IO1 the reader adds only parsed triples, counts only added ones, returns errors with the count so far and reports success only after consulting the scanner's error; T1 printer/parser table agreement. Also: T2/T2b conversion table and unchanged value text; L2b nil results only with a known non-nil error. Not decided: accepted text re-parses to an equal value.",
-		Rules: []func(*Ctx){func(c *Ctx) { ruleFS1(c, "triple/...", "io") }, ruleT2b, func(c *Ctx) { ruleL1(c, 20, "./triple/...", "./io/...") },
+		Rules: []func(*Ctx){ruleN1b, ruleT3, ruleN1, func(c *Ctx) { ruleFS1(c, "triple/...", "io") }, ruleT2b, func(c *Ctx) { ruleL1(c, 20, "./triple/...", "./io/...") },
 			func(c *Ctx) { ruleL2(c, 20, "triple/...", "io") }, func(c *Ctx) { ruleL2b(c, 8, "triple/...", "io") }, ruleIO1, ruleT1, ruleT2},
 		Level:      "compiler prove pass + re-verified discharge table (L1), (nil,nil) contradiction rule (L2), must-pass-through on the reader (IO1)",
 		Trusted:    []string{"L1's reviewed entries for triple/…", "strings.Index / regexp.FindIndex contracts", trustedCore},
@@ -187,7 +187,7 @@ func init() {
 	reg(&Property{
 		ID:          "C18",
 		Explanation: "Decides: G4 Parser.Parse reports success only on the true edge of CanAccept(ItemEOF); G6 hook results can only reject (returned hook discarded, error only tested against nil, error edge returns false); G5 complete inventory of state that survives a parse — captured variables assigned by hook closures, package-level variables written outside init, parser/grammar fields written while parsing — each reviewed or a violation; G7 the look-ahead window keeps its size; G2's parser conformance. Also: HK1 a remembered modifier token is consumed on every successful path (state does not leak to the next clause or statement). Not decided: that the extracted meaning is the intended one.",
-		Rules: []func(*Ctx){func(c *Ctx) { ruleS3c(c, "bql/...") }, ruleHK1, ruleG1, ruleG4, ruleG5, ruleG6, ruleG7, func(c *Ctx) {
+		Rules: []func(*Ctx){ruleHK2, func(c *Ctx) { ruleS3c(c, "bql/...") }, ruleHK1, ruleG1, ruleG4, ruleG5, ruleG6, ruleG7, func(c *Ctx) {
 			c.Rule("G2", "Parser.consume/expect conform structurally to the predictive-parser model", 2)
 			c.parserConformance()
 		}},
